@@ -204,7 +204,7 @@ impl Check for C02 {
     }
     fn count(&self, tier: Tier) -> u64 {
         match tier {
-            Tier::Quick => 200_000,
+            Tier::Quick => 150_000,
             Tier::Thorough => 6_000_000,
         }
     }
